@@ -177,15 +177,35 @@ Definition is_ns_ident (n : node) : bool :=
   | _ => false
   end.
 
-Fixpoint ns_count (n : node) : nat :=
-  match n with
-  | Node t cs =>
-      if is_ident (Node t cs) then (if is_ns_ident (Node t cs) then 1 else 0)
-      else if leaf (Node t cs) then 0
-      else
-        (fix go (l : list node) : nat :=
-           match l with [] => 0 | c :: l' => ns_count c + go l' end) cs
-  end.
+(** The measure is defined once, generically: [kappa] is the weight of one reference, and a block
+    statement or an arrow function may be given a weight of its own by [stop] (instead of the sum over
+    its children); the
+    count of references is the instance without stops and with weight one.  The other instance used
+    (P_CountProgram.v) weighs a nested block by whether it still is a clean, well-formed input. *)
+Definition stop_kind (n : node) : bool := is_kind KBlock n || is_kind KArrow n.
 
-Definition ns_count_list (l : list node) : nat :=
-  fold_right (fun c acc => ns_count c + acc) 0 l.
+Section Meas.
+  Variable stop : node -> option nat.
+  Variable kappa : nat.
+
+  Fixpoint meas (n : node) : nat :=
+    match n with
+    | Node t cs =>
+        if is_ident (Node t cs) then (if is_ns_ident (Node t cs) then kappa else 0)
+        else if leaf (Node t cs) then 0
+        else
+          match (if stop_kind (Node t cs) then stop (Node t cs) else None) with
+          | Some w => w
+          | None =>
+              (fix go (l : list node) : nat :=
+                 match l with [] => 0 | c :: l' => meas c + go l' end) cs
+          end
+    end.
+
+  Definition meas_list (l : list node) : nat :=
+    fold_right (fun c acc => meas c + acc) 0 l.
+End Meas.
+
+Definition no_stop : node -> option nat := fun _ => None.
+Definition ns_count : node -> nat := meas no_stop 1.
+Definition ns_count_list : list node -> nat := meas_list no_stop 1.
